@@ -405,6 +405,17 @@ func replayResubRound(c *RCase, a *attempts, o ro.Observable[any], base context.
 	if nc {
 		add("ctx-nil", "a callback was invoked with a nil context")
 	}
+	// an operator that subscribes its source on a goroutine of its own (SubscribeOn) releases it from that goroutine, possibly a moment after the
+	// terminal reached the observer: "released" is judged once that goroutine had the time to do it (2 s), never in the middle of its run
+	for k := 0; k < 40000; k++ {
+		a.mu.Lock()
+		l := a.live
+		a.mu.Unlock()
+		if l == 0 {
+			break
+		}
+		time.Sleep(50 * time.Microsecond)
+	}
 	a.mu.Lock()
 	started, live, issues := a.started, a.live, a.issues
 	a.mu.Unlock()
